@@ -171,10 +171,10 @@ def run(tier, r):
     for i, case in enumerate(cases):
         if case is None:
             case = gen(r)
-        v, info = check_case(case)
+        v, info = oc.safe(check_case, PROP)(case)
         explored += 1
         vs += v
-        known += info["known"]
+        known += info.get("known", [])
         oc.bump(stats, "dim%d" % case["n"])
         oc.bump(stats, "kind_" + case["spec"]["kind"])
         oc.bump(stats, "class_" + info.get("class", "error"))
